@@ -301,3 +301,391 @@ OPS = {"writer.run": op_writer_run, "hdr.lines": op_hdr_lines, "reader.run": op_
 
 def run(req):
     return OPS[req["op"]](req)
+
+
+# ------------------------------------------------------------------ entry points (readers / writers by every public route)
+# Additive helpers: the same content offered to the library through each way it has of opening a reader or a writer.
+READER_ROUTES = ["list", "list-nl", "list-crlf", "iter", "handle", "path", "path-crlf", "gz", "gz-crlf"]
+PATH_READER_ROUTES = ["path", "path-crlf", "gz", "gz-crlf"]
+WRITER_CHANNELS = ["plain", "gz", "handle", "ctor"]
+
+
+def file_text(lines, eol="\n", final=True):
+    """The text of a file holding `lines` (their own terminators dropped), each ended by `eol`
+    (the last one only when `final`)."""
+    bare = [l.rstrip("\r\n") for l in lines]
+    return eol.join(bare) + (eol if (final and bare) else "")
+
+
+def physical_lines(text):
+    """The lines a text-mode handle (universal newlines) yields for `text`, terminators dropped."""
+    import re
+    parts = re.split(r"\r\n|\r|\n", text)
+    if parts and parts[-1] == "":
+        parts.pop()
+    return parts
+
+
+def route_lines(route, lines, final=True):
+    """The physical lines (no terminators) a reader opened by `route` sees for `lines`."""
+    if route in PATH_READER_ROUTES:
+        return physical_lines(file_text(lines, "\r\n" if route.endswith("crlf") else "\n", final))
+    if route == "handle":          # io.StringIO: lines end at "\n" only; the reader strips CR/LF at the end of each
+        parts = file_text(lines, "\n", final).split("\n")
+        if parts and parts[-1] == "":
+            parts.pop()
+        return [p.rstrip("\r\n") for p in parts]
+    return [l.rstrip("\r\n") for l in lines]
+
+
+def open_reader(route, lines, mode, scheme=None, tmp=None, final=True):
+    """A MafReader over `lines` by one of READER_ROUTES (`mode`: a ValidationStringency or None; `tmp`: a directory
+    for the path routes).  May raise what the library raises."""
+    import gzip
+    import io
+    import os
+    from maflib.reader import MafReader
+    if route == "list":
+        return MafReader(lines=list(lines), validation_stringency=mode, scheme=scheme)
+    bare = [l.rstrip("\r\n") for l in lines]
+    if route == "list-nl":
+        return MafReader(lines=[l + "\n" for l in bare], validation_stringency=mode, scheme=scheme)
+    if route == "list-crlf":
+        return MafReader(lines=[l + "\r\n" for l in bare], validation_stringency=mode, scheme=scheme)
+    if route == "iter":
+        return MafReader(lines=(l for l in bare), validation_stringency=mode, scheme=scheme)
+    if route == "handle":
+        h = io.StringIO(file_text(lines, "\n", final))
+        return MafReader(lines=h, closeable=h, validation_stringency=mode, scheme=scheme)
+    if route not in PATH_READER_ROUTES:
+        raise ValueError("unknown reader route %r" % route)
+    text = file_text(lines, "\r\n" if route.endswith("crlf") else "\n", final)
+    _open_reader_n[0] += 1
+    path = os.path.join(tmp, "in%d.maf%s" % (_open_reader_n[0], ".gz" if route.startswith("gz") else ""))
+    if route.startswith("gz"):
+        with gzip.open(path, "wt", newline="", encoding="utf-8") as f:
+            f.write(text)
+    else:
+        with open(path, "w", newline="", encoding="utf-8") as f:
+            f.write(text)
+    return MafReader.reader_from(path, validation_stringency=mode, scheme=scheme)
+
+
+_open_reader_n = [0]
+
+
+def reader_run_via(req, route, tmp=None, final=True):
+    """op_reader_run through another reader route: the same answer shape, so that the answers are comparable."""
+    given = scheme_by_annotation(req["given"]) if req.get("given") else None
+    if req.get("given_norestrict") is not None:
+        given = NoRestrictionsScheme(column_names=req["given_norestrict"])
+    with LogCapture() as lc:
+        try:
+            reader = open_reader(route, req["lines"], MODES[req.get("mode")], given, tmp, final)
+        except Exception as e:  # noqa
+            return {"init_exc": exc_name(e)}
+        out = {"header": header_json(reader.header()), "init_errors": errs_json(reader.validation_errors)}
+        sch = reader.scheme()
+        out["scheme"] = None if sch is None else {"annotation": sch.annotation_spec(), "names": sch.column_names()}
+        recs = []
+        exc = None
+        try:
+            for rec in reader:
+                recs.append(rec_summary(rec))
+        except Exception as e:  # noqa
+            exc = exc_name(e)
+        out["records"] = recs
+        out["iter_exc"] = exc
+        out["errors"] = errs_json(reader.validation_errors)
+        try:
+            reader.close()
+        except Exception:  # noqa
+            pass
+    out["logs"] = lc.parsed()
+    return out
+
+
+class KeepingStringIO:
+    """A caller-supplied text handle that keeps its content when the writer closes it."""
+
+    def __init__(self):
+        import io
+        self.buf = io.StringIO()
+        self.final = None
+
+    def write(self, t):
+        return self.buf.write(t)
+
+    def close(self):
+        if self.final is None:
+            self.final = self.buf.getvalue()
+
+    def text(self):
+        return self.final if self.final is not None else self.buf.getvalue()
+
+
+def open_writer(channel, header, mode, tmp=None, assume_sorted=True, name="out"):
+    """A MafWriter by one of WRITER_CHANNELS -> (writer, text_of_what_was_written_so_far(), path or None).
+    May raise what the library raises."""
+    import gzip
+    import os
+    from maflib.writer import MafWriter
+    if channel in ("handle", "ctor"):
+        buf = KeepingStringIO()
+        if channel == "handle":
+            w = MafWriter.from_fd(buf, header, validation_stringency=mode, assume_sorted=assume_sorted)
+        else:
+            w = MafWriter(buf, header, validation_stringency=mode, assume_sorted=assume_sorted)
+        return w, buf.text, None
+    if channel not in ("plain", "gz"):
+        raise ValueError("unknown writer channel %r" % channel)
+    path = os.path.join(tmp, name + ".maf" + (".gz" if channel == "gz" else ""))
+    if os.path.exists(path):
+        os.remove(path)
+
+    def text():
+        if not os.path.exists(path):
+            return ""
+        if channel == "gz":
+            with gzip.open(path, "rt", newline="", encoding="utf-8") as f:
+                return f.read()
+        with open(path, "r", newline="", encoding="utf-8") as f:
+            return f.read()
+    w = MafWriter.from_path(path, header, validation_stringency=mode, assume_sorted=assume_sorted)
+    return w, text, path
+
+
+# ------------------------------------------------------------------ writer histories (records that live across steps)
+# Additive helper (C05 / C06): a writer session in which record OBJECTS persist between steps, so that a record can be
+# parsed / validated / offered and then changed through every mutable handle the API exposes, and offered again.
+def _history_value(col, o):
+    """One in-place change of a column object `col` described by `o` (what a caller holding the object can do)."""
+    f = o["field"]
+    if f == "value":
+        col.value = dec_val(o["to"])
+    elif f == "index":
+        col.column_index = o["to"]
+    elif f == "key":
+        col.key = o["to"]
+    elif f == "list.append":
+        col.value.append(dec_val(o["to"]))
+    elif f == "list.insert":
+        col.value.insert(o.get("at", 0), dec_val(o["to"]))
+    elif f == "list.setitem":
+        col.value[o.get("at", 0)] = dec_val(o["to"])
+    elif f == "list.extend":
+        col.value.extend(dec_val(o["to"]))
+    elif f == "list.pop":
+        col.value.pop()
+    elif f == "list.clear":
+        del col.value[:]
+    else:
+        raise ValueError("unknown mutation %r" % f)
+
+
+def _history_build_col(cj):
+    cls = class_of(cj) if ("cls" in cj or "scheme" in cj) else MafColumnRecord
+    return cls(cj["key"], dec_val(cj["value"]), cj.get("index"))
+
+
+def op_writer_history(req):
+    """ops: {"k": "new", "id", "how": "parse" (line, scheme, mode) | "api" (cols), "validate": annotation or None}
+            {"k": "validate", "id", "scheme": annotation}          record.validate(scheme=...) in Silent mode
+            {"k": "mut", "id", "i": construction index of the column object, "field": ..., "to": ..., "at": ...}
+            {"k": "replace", "id", "col": column spec}              record[key] = a new column object
+            {"k": "delete", "id", "key": name}                      del record[name]
+            {"k": "write", "id", "call": "iadd" | "write"}          offered to the writer
+            {"k": "close"}
+    -> {"init_out", "steps": [{"exc", "out" (text written so far; for path channels what is on disk), "snap" (write steps:
+        the text and watched values of the record at the moment it is offered)}]}"""
+    import shutil
+    import tempfile
+    from maflib.header import MafHeader
+    h = MafHeader.from_lines(req["header_lines"], validation_stringency=MODES["Silent"])
+    channel = req.get("channel", "handle")
+    tmp = tempfile.mkdtemp(prefix="verif_hist_") if channel in ("plain", "gz") else None
+    try:
+        try:
+            w, text, _path = open_writer(channel, h, MODES[req.get("mode", "Strict")], tmp=tmp,
+                                         assume_sorted=req.get("assume_sorted", True))
+        except Exception as e:  # noqa
+            return {"init_exc": exc_name(e)}
+        out = {"init_out": text(), "steps": []}
+        recs, objs = {}, {}
+        watch = req.get("watch") or []
+        wsch = scheme_by_annotation(req["watch_scheme"]) if req.get("watch_scheme") else None
+        for o in req["ops"]:
+            exc, snap, k = None, None, o["k"]
+            try:
+                if k == "new":
+                    if o["how"] == "parse":
+                        rec = MafRecord()
+                        recs[o["id"]] = rec
+                        objs[o["id"]] = []
+                        rec = MafRecord.from_line(o["line"], scheme=scheme_of(o), validation_stringency=MODES[o.get("mode", "Strict")])
+                        recs[o["id"]] = rec
+                        objs[o["id"]] = [rec[j] for j in range(len(rec))]
+                    else:
+                        rec = MafRecord()
+                        recs[o["id"]] = rec
+                        objs[o["id"]] = []
+                        for cj in o["cols"]:
+                            col = _history_build_col(cj)
+                            objs[o["id"]].append(col)
+                            try:
+                                rec.add(col)
+                            except Exception:  # noqa
+                                pass
+                    if o.get("validate"):
+                        rec.validate(validation_stringency=MODES["Silent"], scheme=scheme_by_annotation(o["validate"]))
+                elif k == "validate":
+                    recs[o["id"]].validate(validation_stringency=MODES["Silent"], scheme=scheme_by_annotation(o["scheme"]))
+                elif k == "mut":
+                    col = objs[o["id"]][o["i"]]
+                    if col is not None:
+                        _history_value(col, o)
+                elif k == "replace":
+                    col = _history_build_col(o["col"])
+                    objs[o["id"]].append(col)
+                    recs[o["id"]][col.key] = col
+                elif k == "delete":
+                    del recs[o["id"]][o["key"]]
+                elif k == "write":
+                    rec = recs[o["id"]]
+                    try:
+                        snap = {"ok": str(rec)}
+                    except Exception as e:  # noqa
+                        snap = {"err": exc_name(e)}
+                    if watch and wsch is not None:
+                        seen = {}
+                        slots = [rec[j] for j in range(len(rec))]
+                        for name in watch:
+                            cands = []
+                            try:
+                                cands.append(rec[name])
+                            except Exception:  # noqa
+                                pass
+                            pos = wsch.column_index(name=name)
+                            if pos is not None and pos < len(slots):
+                                cands.append(slots[pos])
+                            seen[name] = [enc_val(c.value) for c in cands if c is not None]
+                        snap["watch"] = seen
+                    if o.get("call") == "write":
+                        w.write(rec)
+                    else:
+                        w += rec
+                elif k == "close":
+                    w.close()
+            except Exception as e:  # noqa
+                exc = exc_name(e)
+            st = {"exc": exc, "out": text()}
+            if snap is not None:
+                st["snap"] = snap
+            out["steps"].append(st)
+        return out
+    finally:
+        if tmp:
+            shutil.rmtree(tmp, ignore_errors=True)
+
+
+OPS["writer.history"] = op_writer_history
+
+
+# Additive helpers: a writer.history request as the model's writer.run request (the model has no live objects: every offer
+# becomes a fresh record in the state the live object has at that moment), and the comparison of the two answers.
+from .common import float_table as _float_table  # noqa: E402
+
+
+def _apply_list_op(cur, o):
+    """The model's view of an in-place list change: the new value (JSON encoding), or None when the call raises / is no change."""
+    if cur.get("t") != "list":
+        return None
+    v = list(cur["v"])
+    f = o["field"]
+    try:
+        if f == "list.append":
+            v.append(o["to"])
+        elif f == "list.insert":
+            v.insert(o.get("at", 0), o["to"])
+        elif f == "list.setitem":
+            v[o.get("at", 0)] = o["to"]
+        elif f == "list.extend":
+            if o["to"].get("t") not in ("list", "tuple"):
+                return None
+            v.extend(o["to"]["v"])
+        elif f == "list.pop":
+            v.pop()
+        elif f == "list.clear":
+            v = []
+    except IndexError:
+        return None
+    return {"t": "list", "v": v}
+
+
+def history_model_request(req):
+    """The same session for the model's writer.run: every offer becomes a fresh record in the state the live object has at that
+    moment (construction + the changes so far).  None when the history uses record[name] = ... / del (no model op keeps objects)."""
+    if any(o["k"] in ("replace", "delete") for o in req["ops"]):
+        return None
+    cols, muts, cur, ops, texts, lenient = {}, {}, {}, [], [], {}
+    for o in req["ops"]:
+        if o["k"] == "new":
+            cols[o["id"]] = o.get("cols") or []
+            muts[o["id"]] = []
+            cur[o["id"]] = {j: c["value"] for j, c in enumerate(cols[o["id"]])}
+            if o["how"] == "parse" and o.get("mode", "Strict") != "Strict":
+                # any line parsed without raising: the model parses it the same way (and has no changes of such a record)
+                lenient[o["id"]] = {"line": o["line"], "scheme": o["scheme"]}
+                texts += o["line"].rstrip("\r\n").split("\t")
+        elif o["k"] == "mut":
+            if o["id"] in lenient:
+                return None
+            if o["i"] >= len(cols[o["id"]]):
+                continue
+            if o["field"].startswith("list."):
+                nv = _apply_list_op(cur[o["id"]][o["i"]], o)
+                if nv is None:
+                    continue
+                m = {"i": o["i"], "field": "value", "to": nv}
+            else:
+                m = {"i": o["i"], "field": o["field"], "to": o["to"]}
+            if m["field"] == "value":
+                cur[o["id"]][o["i"]] = m["to"]
+            muts[o["id"]].append(m)
+        elif o["k"] == "write":
+            if o["id"] in lenient:
+                ops.append({"k": "write", "rec": {"parse": dict(lenient[o["id"]])}})
+            else:
+                ops.append({"k": "write", "rec": {"cols": cols[o["id"]], "mut": list(muts[o["id"]])}})
+        elif o["k"] == "close":
+            ops.append({"k": "close"})
+
+    def strs(v):
+        if v.get("t") in ("str", "float"):          # the model renders a float through the table of the host's float()/repr()
+            yield v["v"]
+        elif v.get("t") in ("list", "tuple"):
+            for x in v["v"]:
+                yield from strs(x)
+    for w in ops:
+        if w["k"] == "write" and "cols" in w["rec"]:
+            for c in w["rec"]["cols"]:
+                texts += list(strs(c["value"]))
+            for m in w["rec"]["mut"]:
+                if m["field"] == "value":
+                    texts += list(strs(m["to"]))
+    return {"op": "writer.run", "header_lines": req["header_lines"], "mode": "Strict", "assume_sorted": req["assume_sorted"], "ops": ops,
+            "floats": _float_table(texts + ["1.5", "7.5"])}
+
+
+def history_model_differs(req, m, i):
+    """Compare the model's answer with the implementation's on the offers and the close (None = the same)."""
+    live = req["channel"] in ("handle", "ctor")
+    mine = [(k, st) for k, (o, st) in enumerate(zip(req["ops"], i.get("steps", []))) if o["k"] in ("write", "close")]
+    if "init_exc" in m or "init_exc" in i:
+        return None if m.get("init_exc") == i.get("init_exc") else {"op": "writer.history", "step": None, "model": m.get("init_exc"), "impl": i.get("init_exc")}
+    for n, ((k, st), ms) in enumerate(zip(mine, m["steps"])):
+        last = n == len(mine) - 1
+        if st["exc"] != ms["exc"] or ((live or last) and st["out"] != ms["out"]):
+            return {"op": "writer.history", "step": k, "sorting": not req["assume_sorted"], "channel": req["channel"], "patterns": req.get("patterns"),
+                    "model": {"exc": ms["exc"], "tail": ms["out"][-80:]}, "impl": {"exc": st["exc"], "tail": st["out"][-80:]}}
+    return None
